@@ -249,11 +249,16 @@ ClearReason(k, n, f) ==
 
 Complete(k) ==
     /\ cmd[k].pc = "rb" /\ \A n \in cmd[k].cur : cmd[k].rb[n] = "d"
-    /\ LET reached(n) == Weak # "unmarkStopsAtMissing" \/ ~\E m \in cmd[k].cur : node[m].gone /\ Rank(m) < Rank(n) IN
-       node' = [n \in Nodes |-> IF n \in cmd[k].cur /\ Weak # "noUnmark" /\ reached(n) THEN [node[n] EXCEPT !.marked = FALSE] ELSE node[n]]
-    /\ qmap' = [n \in Nodes |-> IF n \in cmd[k].cur THEN "-" ELSE qmap[n]]
-    /\ cmd' = [cmd EXCEPT ![k].pc = "failed"]
-    /\ g' = [g EXCEPT ![k].rbOK = g[k].rbFault \/ Live_C08_RolledBack({node'[n] : n \in {m \in cmd[k].cur : ~node[m].deleting /\ ~node[m].gone}})]
+    /\ IF Weak = "requeueOnRollbackError" /\ g[k].rbFault
+       THEN \* spec mutation: a rollback that hit an API error keeps the command (queued, marked) "to retry the rollback"
+            /\ cmd' = [cmd EXCEPT ![k].pc = "queued"]
+            /\ g' = [g EXCEPT ![k].rbFault = FALSE]
+            /\ UNCHANGED <<node, qmap>>
+       ELSE /\ LET reached(n) == Weak # "unmarkStopsAtMissing" \/ ~\E m \in cmd[k].cur : node[m].gone /\ Rank(m) < Rank(n) IN
+               node' = [n \in Nodes |-> IF n \in cmd[k].cur /\ Weak # "noUnmark" /\ reached(n) THEN [node[n] EXCEPT !.marked = FALSE] ELSE node[n]]
+            /\ qmap' = [n \in Nodes |-> IF n \in cmd[k].cur THEN "-" ELSE qmap[n]]
+            /\ cmd' = [cmd EXCEPT ![k].pc = "failed"]
+            /\ g' = [g EXCEPT ![k].rbOK = g[k].rbFault \/ Live_C08_RolledBack({node'[n] : n \in {m \in cmd[k].cur : ~node[m].deleting /\ ~node[m].gone}})]
     /\ UNCHANGED <<cands, need, rs, clean, now, faults, restarts>>
     /\ Hist(Ev("Complete", k, "-", "ok"))
 
